@@ -13,6 +13,7 @@ import (
 	"sync/atomic"
 	"time"
 
+	"github.com/DrmagicE/gmqtt"
 	"github.com/DrmagicE/gmqtt/config"
 	"github.com/DrmagicE/gmqtt/pkg/packets"
 	"github.com/DrmagicE/gmqtt/server"
@@ -38,31 +39,50 @@ type Scenario struct {
 }
 
 type cl struct {
-	id      string
-	v       mqttx.Version
-	conns   []*wire.Client // all connections of this client id (statistics epoch = session)
-	cur     *wire.Client
-	online  bool
-	epoch0  int // index into conns where the current statistics epoch starts
-	killed  bool
-	subs    map[string]byte
-	maxPkt  uint32
+	id         string
+	v          mqttx.Version
+	conns      []*wire.Client // all connections of this client id (statistics epoch = session)
+	cur        *wire.Client
+	online     bool
+	epoch0     int // index into conns where the current statistics epoch starts
+	killed     bool
+	subs       map[string]byte
+	maxPkt     uint32
 	authMethod bool // v5: connects with an Authentication Method and re-authenticates now and then
 }
 
 type world struct {
-	sc   *Scenario
-	b    *broker.Broker
-	rng  *rand.Rand
-	cs   []*cl
-	fs   []finding
-	obs  map[string]int
+	sc  *Scenario
+	b   *broker.Broker
+	rng *rand.Rand
+	cs  []*cl
+	fs  []finding
+	obs map[string]int
 	// ground truth for connection statistics
-	connected, disconnected, created        uint64
-	termNormal, termTakenOver, termExpired  uint64
-	dropped                                 map[string]map[string][3]uint64 // client -> reason -> per QoS
-	expectQueued, expectInflight            map[string]uint64
-	syncN                                   int
+	connected, disconnected, created       uint64
+	termNormal, termTakenOver, termExpired uint64
+	dropped                                map[string]map[string][3]uint64 // client -> reason -> per QoS
+	expectQueued, expectInflight           map[string]uint64
+	syncN                                  int
+	// hold: while set, the broker's write loop for client holdID blocks inside the OnDelivered hook
+	holdMu      sync.Mutex
+	holdID      string
+	holdCh      chan struct{}
+	holdEntered chan struct{}
+}
+
+func (w *world) onDelivered(id string) {
+	w.holdMu.Lock()
+	ch, ent := w.holdCh, w.holdEntered
+	match := w.holdID == id && id != ""
+	if match {
+		w.holdID = "" // only the first delivery is held back
+	}
+	w.holdMu.Unlock()
+	if match {
+		close(ent)
+		<-ch
+	}
 }
 
 type finding struct{ Sig, What string }
@@ -267,6 +287,79 @@ func (w *world) dropCase(kind string, idx int) {
 				time.Sleep(2 * time.Millisecond)
 			}
 			w.expectInflight[id] = 5
+			// acknowledgements that refer to nothing: a PUBACK / PUBCOMP with an unknown packet identifier, and a
+			// repeated acknowledgement. The queue keeps its contents, so do the gauges.
+			_ = conn.Send(&mqttx.Packet{Type: mqttx.PUBACK, PacketID: 61001})
+			_ = conn.Send(&mqttx.Packet{Type: mqttx.PUBCOMP, PacketID: 61002})
+			w.obs["stray_acks"] += 2
+			if pubs := conn.Publishes(); len(pubs) >= 5 {
+				first := pubs[0].P
+				ackIt := func() {
+					if first.QoS == 1 {
+						_ = conn.Send(&mqttx.Packet{Type: mqttx.PUBACK, PacketID: first.PacketID})
+					} else {
+						_ = conn.Send(&mqttx.Packet{Type: mqttx.PUBREC, PacketID: first.PacketID})
+						if _, err := conn.WaitType(mqttx.PUBREL, first.PacketID, step); err != nil {
+							w.add("harness.pubrel", err.Error())
+						}
+						_ = conn.Send(&mqttx.Packet{Type: mqttx.PUBCOMP, PacketID: first.PacketID})
+					}
+				}
+				ackIt()
+				deadline := time.Now().Add(step)
+				for len(conn.Publishes()) < 6 && time.Now().Before(deadline) {
+					time.Sleep(2 * time.Millisecond)
+				}
+				// the same acknowledgement once more: its packet identifier is no longer in the queue
+				if first.QoS == 1 {
+					_ = conn.Send(&mqttx.Packet{Type: mqttx.PUBACK, PacketID: first.PacketID})
+				} else {
+					_ = conn.Send(&mqttx.Packet{Type: mqttx.PUBCOMP, PacketID: first.PacketID})
+				}
+				w.obs["repeated_acks"]++
+				w.expectQueued[id] = 49
+			}
+			if err := conn.Ping(step); err != nil {
+				w.add("harness.ping_after_stray_acks", err.Error())
+			}
+		}
+	case "backlog":
+		// The write loop is busy (held inside the OnDelivered hook, as it would be by a blocking socket write) with
+		// more packets queued behind it when the broker ends the connection with a DISCONNECT: whichever way the
+		// write loop drains its channel afterwards, what the client finally received is what was counted.
+		w.holdMu.Lock()
+		w.holdID, w.holdCh, w.holdEntered = id, make(chan struct{}), make(chan struct{})
+		ch, ent := w.holdCh, w.holdEntered
+		w.holdMu.Unlock()
+		w.b.Publish(topic, "held", 0, false)
+		select {
+		case <-ent:
+		case <-time.After(step):
+			close(ch)
+			w.add("harness.hold", "the write loop never reached OnDelivered")
+			return
+		}
+		for i := 0; i < 4; i++ {
+			w.b.Publish(topic, fmt.Sprintf("behind-%d", i), 0, false)
+		}
+		time.Sleep(10 * time.Millisecond)
+		from := w.b.Log.Len()
+		_ = c.cur.SendRaw([]byte{0xC1, 0x00}, nil) // PINGREQ with a reserved flag set: malformed
+		time.Sleep(30 * time.Millisecond)
+		close(ch)
+		if !c.cur.WaitEOF(step) {
+			w.add("harness.backlog_eof", "the broker did not close the connection after a malformed packet")
+		}
+		if !w.waitClosed(id, from) {
+			w.add("harness.close_not_observed", "OnClosed missing for "+id)
+		}
+		w.disconnected++
+		c.online = false
+		c.killed = true
+		for _, p := range c.cur.Ctl() {
+			if p.Type == mqttx.DISCONNECT {
+				w.obs["backlogged_disconnects_received"]++
+			}
 		}
 	case "expired":
 		// offline, message expiry 1 s: 4 messages expire in the queue and are dropped when the queue is read
@@ -354,9 +447,9 @@ func (w *world) sessionExists(id string) bool {
 }
 
 type counts struct {
-	pktIn, pktOut     map[string]uint64 // by type name: broker received / broker sent
-	byteIn, byteOut   map[string]uint64
-	msgIn, msgOut     [3]uint64
+	pktIn, pktOut   map[string]uint64 // by type name: broker received / broker sent
+	byteIn, byteOut map[string]uint64
+	msgIn, msgOut   [3]uint64
 }
 
 func truth(conns []*wire.Client) counts {
@@ -478,6 +571,9 @@ func runScenario(sc *Scenario) (fs []finding, obs map[string]int, rerr error) {
 		},
 		OnReAuth: func(ctx context.Context, c server.Client, a *packets.Auth) (*server.AuthResponse, error) {
 			return &server.AuthResponse{AuthData: []byte("ok")}, nil
+		},
+		OnDelivered: func(ctx context.Context, c server.Client, m *gmqtt.Message) {
+			w.onDelivered(c.ClientOptions().ClientID)
 		},
 	}, Cfg: func(c *config.Config) {
 		c.MQTT.MaxQueuedMsg = 1000
@@ -695,7 +791,7 @@ func Run(r *monitor.Run) {
 	scs := make([]Scenario, n)
 	for i := range scs {
 		sc := Scenario{Seed: rng.Int63(), Clients: 2 + rng.Intn(4), Traffic: 10 + rng.Intn(r.Pick(40, 120)), Churn: rng.Intn(12), Terminate: rng.Intn(3) == 0}
-		for _, d := range []string{"queue_full", "oversize", "expired"} {
+		for _, d := range []string{"queue_full", "oversize", "expired", "backlog"} {
 			p := 3
 			if d == "expired" {
 				p = 8 // costs 2 s of real time
